@@ -87,6 +87,9 @@ func recheck(oracle string, ops, res []string) (bool, string) {
 		return false, ""
 	case "norace":
 		for i, r := range res {
+			if r == "timeout" {
+				continue // the -race child did not finish in time: nothing observed
+			}
 			if r != "ok race:0" {
 				return true, fmt.Sprintf("op %d: %s (the race detector reported a data race, or the -race run failed, while up to 16 goroutines resolved over one shared client)", i, r)
 			}
